@@ -395,6 +395,13 @@ func runHistory(ops []string) string {
 			}
 		case p[0] == "PS":
 			emit("PS=" + strings.TrimPrefix(live(p[1], "setup", ""), "S="))
+		case p[0] == "PSELF":
+			// a controller that pairs under the accessory's own device id
+			if w == nil {
+				emit("PSELF=stopped")
+				continue
+			}
+			emit("PSELF=" + strings.TrimPrefix(live(w.t.VerifTxtRecords()["id"], "setup", ""), "S="))
 		case p[0] == "AD":
 			emit("AD=" + strings.TrimPrefix(live(p[1], "add", p[2]), "R="))
 		case p[0] == "RM":
@@ -418,9 +425,17 @@ func runHistory(ops []string) string {
 			}
 			es, _ := d.Entities()
 			var names []string
+			self := ""
+			if b, err := ioutil.ReadFile(filepath.Join(dir, "uuid")); err == nil {
+				self = string(b)
+			}
 			for _, e := range es {
 				if len(e.PrivateKey) == 0 {
-					names = append(names, e.Name)
+					if e.Name == self {
+						names = append(names, "SELF")
+					} else {
+						names = append(names, e.Name)
+					}
 				}
 			}
 			sort.Strings(names)
